@@ -303,6 +303,23 @@ def rule_a7(repo, col):
             raise AnalysisError("%s: compared values are not the computed arguments" % f.name)
         col.decide("A7", m, rets[0], got is opcls and rows[0].wrapper == "b", "%s/2 applies the matching Python comparison to the computed values" % name,
                    "%s/2 is implemented by %s, which compares the computed arguments with the wrong operator" % (name, f.name))
+        # the comparison is reached for every pair of NUMBERS, zero included: the only admissible early exit is on a value that is None (no value), never on a falsy value
+        from .. import dtable as _dt
+        zero_bad = []
+        vnames = sorted(vals)
+        for p_ in _dt.extract(f.node, opaque_loops=True):
+            if p_.end == "return" and isinstance(ast.parse(p_.value, mode="eval").body if p_.value else None, ast.Compare):
+                continue
+            tests = [(s_, t_) for s_, t_, _ in p_.conds if not s_.startswith("<")]
+            # an early exit: every deciding test must be an `is None` test that holds
+            for s_, t_ in tests:
+                if not (s_.endswith(" is None") or s_.endswith(" is not None")):
+                    zero_bad.append("%s is %s" % (s_, t_))
+            if tests and not any((s_.endswith(" is None") and t_) or (s_.endswith(" is not None") and not t_) for s_, t_ in tests):
+                zero_bad.append("no operand is known to be None")
+        col.decide("A7", m, f.node, not zero_bad, "%s/2 leaves early only when an operand has no value (is None)" % name,
+                   "%s/2 returns without comparing when %s: a test on the truth value of a computed operand treats 0 and 0.0 as 'no value', so the comparison fails for every pair with a "
+                   "zero operand (0 =\\= 1 is false)" % (name, "; ".join(sorted(set(zero_bad))[:2])), construct="def %s: early exit on a falsy operand" % f.name, function=f.name)
         # both arguments must be checked ground
         ss = [s for s in modes.sites(repo, ["problog.engine_builtin"]) if s.func is f]
         okm = len(ss) == 1 and ss[0].modes == ["gg"]
